@@ -1,5 +1,6 @@
 import Lean.Data.Json
 import TeaalVerif
+import TeaalVerif.Driver.C16
 /-! JSON line-protocol driver: one request per line on stdin, one answer per line on stdout.
     Run with `lake env lean --run Main.lean`. -/
 open Lean
@@ -23,6 +24,7 @@ def handle (j : Json) : Except String Json := do
   | "cursor" => Driver.cursor j
   | "rankids" => Driver.rankids j
   | "rankheap" => Driver.rankheap j
+  | "activity_balance" => Driver.activityBalance j
   | "tmp_issued" => Driver.tmpIssued j
   | "ft_op" => Driver.ftOp j
   | "ft_fiber" => Driver.ftFiber j
